@@ -25,6 +25,7 @@ pub fn list() -> Vec<(&'static str, super::Scenario)> {
         ("excl_drop", excl_drop),
         ("indep_stale", indep_stale),
         ("wake_stale_entry", wake_stale_entry),
+        ("indep_race", indep_race),
     ]
 }
 
@@ -581,6 +582,12 @@ fn drop_obj(cfg: &Cfg) {
             w.desync(&o, "Dblk", Body::blocking(&bg));
         }
         2 => w.future_desync(&o, "FD", Body::gated(&g)).detach(),
+        4 => {
+            // the future is polled once by hand (the poll may run the operation up to its await), the event fires, and the
+            // future is dropped without being polled again, possibly while another runner is inside the resumed operation
+            let g2 = g.clone();
+            w.future_desync(&o, "FD", Body::gated(&g)).poll_then(1, move || g2.open());
+        }
         _ => {
             w.future_desync(&o, "FD", Body::gated(&g)).detach();
             w.desync(&o, "D", Body::plain());
@@ -669,6 +676,21 @@ fn suspend(cfg: &Cfg) {
     let q = match &o { Obj::Raw(q, _) => q.clone(), _ => unreachable!() };
     let g0 = Gate::new();
     let mut env = None;
+    if cfg.opt("stale", 0) == 2 {
+        // phase 1, no pool threads: an earlier future operation is run by a thread inside sync (its waker is a thread waker);
+        // that waker fires again (stale) later, while the queue is suspended on a pool thread
+        scheduler().verif_set_max_threads(0);
+        rt::set_census_limit(POOL_NAME, 0);
+        w.future_desync(&o, "EARLY-FD", Body::gated(&g0)).detach();
+        let g = g0.clone();
+        let e1 = spawn(move || g.open());
+        w.sync(&o, "EARLY-SYNC", Body::plain());
+        join(e1, "env1");
+        scheduler().verif_set_max_threads(pool);
+        rt::set_census_limit(POOL_NAME, pool);
+        let g = g0.clone();
+        env = Some(spawn(move || g.fire_stale()));
+    }
     if stale {
         // an earlier future operation whose waker is fired again (stale) at an arbitrary later time
         w.future_desync(&o, "EARLY-FD", Body::gated(&g0)).detach();
@@ -892,7 +914,41 @@ fn pool_census(cfg: &Cfg) {
     if pool == 0 && rt::created_threads_named(POOL_NAME) != 0 {
         rt::violation("CENSUS a pool thread was created although the maximum is 0".into());
     }
-    if phases >= 1 {
+    if phases == 3 {
+        // lower the maximum while every pool thread is busy: despawn must wait for the surplus threads and bring the pool down
+        let mut bgs = vec![];
+        for (i, o) in objs.iter().enumerate() {
+            let bg = BGate::new();
+            w.desync(o, &format!("K{}", i), Body::blocking(&bg));
+            bgs.push(bg);
+        }
+        rt::quiesce();
+        let opener = spawn(move || {
+            for bg in &bgs {
+                bg.open();
+            }
+        });
+        let lower = if pool > 0 { pool - 1 } else { 0 };
+        scheduler().verif_set_max_threads(lower);
+        scheduler().despawn_threads_if_overloaded();
+        rt::set_census_limit(POOL_NAME, lower);
+        if rt::live_threads_named(POOL_NAME) > lower {
+            rt::violation(format!("CENSUS {} pool threads alive after lowering the maximum to {} and despawning while they were busy", rt::live_threads_named(POOL_NAME), lower));
+        }
+        join(opener, "opener");
+        for (i, o) in objs.iter().enumerate() {
+            w.desync(o, &format!("L{}", i), Body::plain());
+        }
+        rt::quiesce();
+        if rt::live_threads_named(POOL_NAME) > lower {
+            rt::violation(format!("CENSUS {} pool threads alive with maximum {}", rt::live_threads_named(POOL_NAME), lower));
+        }
+        if lower == 0 {
+            for o in &objs {
+                w.sync(o, "kick", Body::plain());
+            }
+        }
+    } else if phases >= 1 {
         // raise the maximum by one and schedule blocking work on every object: exactly max threads may exist
         let newmax = pool + 1;
         scheduler().verif_set_max_threads(newmax);
@@ -1225,6 +1281,47 @@ fn wake_stale_entry(cfg: &Cfg) {
     for (bq, _) in &pins {
         all.push(bq);
     }
+    finish(&w, &all, pool);
+    shutdown();
+}
+
+/// C10 when the scheduling calls themselves race: `n` threads each schedule a job that blocks for an
+/// arbitrarily long time on its own object, with no pool thread existing yet and a maximum of at least
+/// `n`; at the first quiescence (gates closed) every one of them must have started.
+fn indep_race(cfg: &Cfg) {
+    let pool = cfg.pool();
+    setup(pool);
+    let n = cfg.opt("n", 2) as usize;
+    let w = World::new();
+    let mut objs = vec![];
+    let mut bgs = vec![];
+    let mut hs = vec![];
+    for i in 0..n {
+        let o = w.raw();
+        let bg = BGate::new();
+        let (w1, o1, bg1) = (w.clone(), o.clone(), bg.clone());
+        hs.push(spawn(move || {
+            w1.desync(&o1, &format!("BLK{}", i), Body::blocking(&bg1));
+        }));
+        objs.push(o);
+        bgs.push(bg);
+    }
+    for (i, h) in hs.into_iter().enumerate() {
+        join(h, &format!("sched{}", i));
+    }
+    rt::quiesce();
+    for i in 0..n.min(pool) {
+        let name = format!("BLK{}", i);
+        if !w.rec.all().iter().any(|r| r.name == name && !r.starts.is_empty()) {
+            let started = w.rec.all().iter().filter(|r| !r.starts.is_empty()).count();
+            rt::violation(format!("INDEP only {} of {} blocking operations on different objects are running although the pool maximum is {}", started, n, pool));
+            break;
+        }
+    }
+    for bg in &bgs {
+        bg.open();
+    }
+    let all: Vec<&Obj> = objs.iter().collect();
     finish(&w, &all, pool);
     shutdown();
 }
